@@ -13,7 +13,7 @@ CLAIMED = {
         "strings are sent through the real handlers over the recording backend; PathGuardTrace classifies every sent string itself and requires "
         "of every recorded backend call: absolute, no empty/'.'/'..' component, component list = the handle's path or that path plus HexOf(valid "
         "name); an invalid name must fail and leave the tree unchanged; no new symlink with an absolute or '..' target; READLINK of planted links "
-        "never returns a relative '..' target.",
+        "never returns a relative '..' target. MNT vectors are also sent directly behind (and one '/' behind) the name the export is published under (AbsfsNFS.Export) in the histories that have one; the backend must still see only absolute normalized paths (spec mutation mntTrimExportPrefix).",
    note="bounded-exhaustive over 7 tokens (a . / \\ NUL and fillers of 250 and 5 bytes) up to 3 (quick) / 4 (thorough) tokens per string; longer and "
         "non-ASCII strings only by seeded sampling; names arrive well-formed at the XDR level (length and padding correct); handles at depth 0..2; "
         "READDIR/READDIRPLUS are not driven"),
